@@ -17,6 +17,7 @@ L2 ops are handled by `ArvVerif.C14.poolStep` (prefix `pl`), L3 by `protoStep` (
 -/
 import ArvVerif.Base.Loop
 import ArvVerif.Model.C14
+import ArvVerif.Model.C14_Pool
 open ArvVerif ArvVerif.C14
 
 namespace C14Drv
@@ -152,10 +153,176 @@ def stepL1 (f : List String) : Option String :=
   | ["la", ops] => runLa (splitList ops)
   | _ => none
 
+/-! ### L2: op sequences on the pool model
+
+  pl <workers> <exited> <ops>
+     workers  id:type:S:I:starting:running:updated:busy,…   S ∈ U B I R S, I ∈ r h d; uuid lists joined by '/'
+     exited   u:t,…
+     ops      st<t>:<u>  StartContainer → w<id> | w0          sd<u>   oldest pending start of u completes
+              kl<u>  KillContainer → 0|1                        fg<u>   ForgetContainer
+              rn     Running() → keys ('x' suffix = exited)     cr<w>:<u>  onKilled → closeRunner
+              sh<w>  shutdown                                   ib<w>:<r|h|d>:<allGivenUp>  SetIdleBehavior
+              th     threshold := now                           sy<retry>:<id.type.tag.created/…>  Pool.sync
+              pb<w>:<timedOut>  probe begins                    pm<w>:<bootok>  boot probe returns
+              pa<w>:<ok>:<broken>:<allGivenUp>:<uuids>  run probe returns, result applied
+   → per-op results, then ';' and the final pool; one outcome per StartContainer choice, joined by '|'
+-/
+
+inductive PPhase where
+  | begun (stamp : Nat) (timedOut : Bool)
+  | mid (stamp : Nat) (booted : Bool) (timedOut : Bool)
+
+structure PSt where
+  pool : Pool
+  clock : Nat
+  pend : List (Nat × Nat)
+  probes : List (Nat × PPhase)
+  threshold : Nat
+  out : List String
+
+def parseUs (s : String) : Option (List Nat) :=
+  if s == "-" || s == "" then some [] else (s.splitOn "/").mapM (·.toNat?)
+
+def parseWS (s : String) : Option WState :=
+  match s with
+  | "U" => some .unknown | "B" => some .booting | "I" => some .idle | "R" => some .running
+  | "S" => some .shutdown | _ => none
+
+def parseIB (s : String) : Option IdleB :=
+  match s with
+  | "r" => some .run | "h" => some .hold | "d" => some .drain | _ => none
+
+def parseBool (s : String) : Option Bool :=
+  if s == "1" then some true else if s == "0" then some false else none
+
+def parseWorker (s : String) : Option Worker :=
+  match s.splitOn ":" with
+  | [id, ty, st, ib, sg, rg, up, bu] => do
+    pure { id := ← id.toNat?, itype := ← ty.toNat?, state := ← parseWS st, idleB := ← parseIB ib,
+           starting := ← parseUs sg, running := ← parseUs rg, updated := ← up.toNat?, busy := ← bu.toNat?,
+           probed := 0 }
+  | _ => none
+
+def showWS : WState → String
+  | .unknown => "U" | .booting => "B" | .idle => "I" | .running => "R" | .shutdown => "S"
+def showIB : IdleB → String
+  | .run => "r" | .hold => "h" | .drain => "d"
+
+def showUs (l : List Nat) : String :=
+  if l.isEmpty then "-" else "/".intercalate ((sortNat l).map toString)
+
+def showPool (p : Pool) : String :=
+  let ws := p.workers.mergeSort (fun a b => decide (a.id ≤ b.id))
+  joinOr (ws.map (fun w => s!"{w.id}:{showWS w.state}:{showIB w.idleB}:{showUs w.starting}:{showUs w.running}"))
+    ++ ";ex=" ++ showUs (p.exited.map (·.1))
+
+def tick (s : PSt) : PSt := { s with clock := s.clock + 1 }
+
+def dropProbe (s : PSt) (w : Nat) : PSt := { s with probes := s.probes.filter (fun q => q.1 != w) }
+
+def applyProbe (s : PSt) (w : Nat) (pr : Probe) : PSt :=
+  dropProbe { s with pool := s.pool.probeApply w pr s.clock } w
+
+def parseListed (s : String) : Option Pool.Listed :=
+  match s.splitOn "." with
+  | [id, ty, tag, cr] => do
+    let tag ← if tag == "n" then some none else (parseIB tag).map some
+    pure { id := ← id.toNat?, itype := ← ty.toNat?, idleTag := tag, created := ← parseBool cr }
+  | _ => none
+
+def poolOp (s : PSt) (op : String) : Option (List PSt) := do
+  let s := tick s
+  let now := s.clock
+  let kind := (op.take 2).toString
+  let args := ((op.drop 2).toString).splitOn ":"
+  match kind, args with
+  | "st", [t, u] =>
+    let t ← t.toNat?; let u ← u.toNat?
+    let cands := s.pool.startCandidates t
+    if cands.isEmpty then pure [{ s with out := s.out ++ ["w0"] }]
+    else cands.mapM (fun wid => do
+      let p ← s.pool.startContainer t u wid
+      let w ← s.pool.find wid
+      pure { s with pool := p, pend := s.pend ++ [(wid, u)],
+                    out := s.out ++ [s!"w{wid}{showWS w.state}{showIB w.idleB}"] })
+  | "sd", [u] =>
+    let u ← u.toNat?
+    match s.pend.find? (fun q => q.2 == u) with
+    | some q =>
+      pure [{ s with pool := s.pool.startDone q.1 u now, pend := s.pend.erase q }]
+    | none => pure [s]
+  | "kl", [u] =>
+    let u ← u.toNat?
+    pure [{ s with out := s.out ++ [b2s (s.pool.killContainer u)] }]
+  | "fg", [u] => pure [{ s with pool := s.pool.forget (← u.toNat?) }]
+  | "rn", [""] =>
+    let keys := (sortNat s.pool.runningKeys).eraseDups
+    let toks := keys.map (fun u => match s.pool.runningView u with
+      | some (some _) => s!"{u}x" | _ => s!"{u}")
+    pure [{ s with out := s.out ++ [if toks.isEmpty then "none" else ".".intercalate toks] }]
+  | "cr", [w, u] => pure [{ s with pool := s.pool.closeRunner (← w.toNat?) (← u.toNat?) now }]
+  | "sh", [w] => pure [{ s with pool := s.pool.shutdownWorker (← w.toNat?) now }]
+  | "ib", [w, b, g] =>
+    pure [{ s with pool := s.pool.setIdleBehavior (← w.toNat?) (← parseIB b) false (← parseBool g) now }]
+  | "th", [""] => pure [{ s with threshold := now }]
+  | "sy", [r, ls] =>
+    let r ← parseBool r
+    let ls ← (if ls == "-" then some [] else (ls.splitOn "/").mapM parseListed)
+    pure [{ s with pool := s.pool.sync s.threshold ls (fun _ => r) now }]
+  | "pb", [w, t] =>
+    let w ← w.toNat?; let t ← parseBool t
+    if s.probes.any (fun q => q.1 == w) then pure [s] else
+    match s.pool.find w with
+    | none => pure [s]
+    | some wk =>
+      match wk.state with
+      | .shutdown => pure [s]
+      | .idle | .running => pure [{ s with probes := s.probes ++ [(w, .mid wk.updated true t)] }]
+      | _ => pure [{ s with probes := s.probes ++ [(w, .begun wk.updated t)] }]
+  | "pm", [w, b] =>
+    let w ← w.toNat?; let b ← parseBool b
+    match s.probes.find? (fun q => q.1 == w) with
+    | some (_, .begun stamp t) =>
+      match s.pool.find w with
+      | none => pure [dropProbe s w]
+      | some wk =>
+        let booted := b || wk.state == .running || wk.state == .idle
+        let doRun := booted || wk.state == .unknown
+        if doRun then
+          pure [{ dropProbe s w with probes := (dropProbe s w).probes ++ [(w, .mid stamp booted t)] }]
+        else
+          pure [applyProbe s w { stamp := stamp, booted := false, ok := false, broken := false, uuids := [],
+                                 timedOut := t, allGivenUp := false }]
+    | _ => pure [s]
+  | "pa", [w, ok, br, g, us] =>
+    let w ← w.toNat?
+    let ok ← parseBool ok; let br ← parseBool br; let g ← parseBool g; let us ← parseUs us
+    match s.probes.find? (fun q => q.1 == w) with
+    | some (_, .mid stamp booted t) =>
+      pure [applyProbe s w { stamp := stamp, booted := booted, ok := ok, broken := ok && br,
+                             uuids := if ok then us else [], timedOut := t, allGivenUp := g }]
+    | _ => pure [s]
+  | _, _ => none
+
+def runPl (ws ex ops : String) : Option String := do
+  let workers ← (splitList ws).mapM parseWorker
+  let exited ← (splitList ex).mapM (fun x => match x.splitOn ":" with
+    | [u, t] => do pure ((← u.toNat?), (← t.toNat?))
+    | _ => none)
+  let init : PSt := ⟨⟨workers, exited⟩, 1000, [], [], 0, []⟩
+  let finals ← (splitList ops).foldlM (fun (sts : List PSt) op => do
+    let nexts ← sts.mapM (fun s => poolOp s op)
+    pure nexts.flatten) [init]
+  pure ("|".intercalate (dedup (finals.map (fun s => joinOr s.out ++ ";" ++ showPool s.pool))))
+
 end C14Drv
 
 def step (line : String) : String :=
-  match C14Drv.stepL1 (fields line) with
+  let f := fields line
+  let r := match f with
+    | ["pl", ws, ex, ops] => C14Drv.runPl ws ex ops
+    | _ => C14Drv.stepL1 f
+  match r with
   | some r => r
   | none => "bad-op"
 
